@@ -7,6 +7,7 @@ import (
 	"sync"
 	"time"
 
+	"github.com/andydunstall/piko/server/config"
 	"verifharness/internal/e4"
 	"verifharness/internal/evid"
 )
@@ -50,8 +51,10 @@ type c01World struct {
 	prev int
 }
 
-func newC01World(n int) *c01World {
-	w := &c01World{n: n, cl: e4.NewCompCluster(n, e4.DefaultProxyConfig(), nil), ups: map[string]*e4.StampUpstream{}, has: map[string]bool{}}
+func newC01World(n int) *c01World { return newC01WorldCfg(n, e4.DefaultProxyConfig()) }
+
+func newC01WorldCfg(n int, pc config.ProxyConfig) *c01World {
+	w := &c01World{n: n, cl: e4.NewCompCluster(n, pc, nil), ups: map[string]*e4.StampUpstream{}, has: map[string]bool{}}
 	for i := 0; i < n; i++ {
 		for _, ep := range append(append([]string{}, c01Endpoints...), "e1x", "E1") {
 			w.ups[fmt.Sprintf("%s@%d", ep, i)] = &e4.StampUpstream{Endpoint: ep, Name: fmt.Sprintf("u-%s-%d", ep, i), Node: fmt.Sprintf("n%d", i)}
@@ -420,6 +423,9 @@ func init() {
 	register("C01", func(args []string) int {
 		run := evid.NewRun("C01", "exploration")
 		evals, nontriv := c01Component(run)
+		al, st := c01AccessLog(run), c01Statuses(run)
+		evals += al + st
+		nontriv += al + st
 		fmt.Printf("  C01 component cluster: cases=%d non-trivial=%d\n", evals, nontriv)
 		sizes := []int{3}
 		if run.Thorough() {
